@@ -962,8 +962,16 @@ class Gen:
             if self.chance(0.4):
                 self.feat("cycle-named")
                 name = self.pick(["'g': ", '"g": ', "g: ", "s: "])
-            items = ", ".join(self.val() if self.chance(0.7) else self.prim() for _ in range(self.rng.randint(1, 3)))
-            return self.tag("cycle", name + items)
+            # (no interpolated template strings as cycle items: the real cycle group key then
+            # hashes an expression object by identity, so a cycle in a partial that is parsed
+            # once per iteration never advances - or advances when an address is reused; that
+            # nondeterminism belongs to C09, and would make this check flaky)
+            vals = []
+            while len(vals) < self.rng.randint(1, 3):
+                v = self.val() if self.chance(0.7) else self.prim()
+                if "${" not in v or "\\${" in v:
+                    vals.append(v)
+            return self.tag("cycle", name + ", ".join(vals))
         if r < 0.58:
             t = self.pick(["increment", "decrement"])
             self.feat(t)
